@@ -34,7 +34,7 @@ fn real_main() -> i32 {
         };
         println!("{}", serde_json::to_string_pretty(&out).unwrap());
         sv::eng::cleanup_scratch();
-        return if out["verdict"] == "violated" { 1 } else { 0 };
+        return if out["verdict"] == "violated" { 1 } else if out["verdict"] == "inconclusive" { 2 } else { 0 };
     }
     if args[1] == "miri-laws" {
         // law checker over a reduced pool, no file I/O: small enough for the Miri interpreter (undefined behaviour / data race detector)
